@@ -676,6 +676,30 @@ def r8_5(ctx):
         )
 
 
+def r8_5b(ctx):
+    """Literals are taken by octet count and handed on untouched: the escape decoding of quoted strings must not reach the
+    literal arm of _p_string (an APPENDed message, a password, a mailbox name given as a literal may contain `\\"` and `\\\\`)."""
+    p = ctx.p
+    fi = p.func("parse.IMAPClientCommand._p_string")
+    ctx.analysed(fi)
+    lit = [s_ for s_ in body_walk(fi.node) if isinstance(s_, ast.Assign) and isinstance(s_.value, ast.Subscript) and norm(s_.value.value) == "self.input" and isinstance(s_.value.slice, ast.Slice) and s_.value.slice.lower is None and isinstance(s_.targets[0], ast.Name)]
+    ctx.require(lit, "_p_string: literal slice of the input not found")
+    var = lit[0].targets[0].id
+    # every use of the literal's variable is a plain `return var` (or the slice bookkeeping of self.input)
+    bad = []
+    for n in body_walk(fi.node):
+        if isinstance(n, ast.Call) and any(isinstance(x, ast.Name) and x.id == var for a in list(n.args) + [k.value for k in n.keywords] for x in ast.walk(a)):
+            if call_name(n) not in ("len",):
+                bad.append(n)
+    rets = [r for r in body_walk(fi.node) if isinstance(r, ast.Return) and r.value is not None and var in names_in(r.value)]
+    if bad:
+        ctx.bad("R8.5", fi.module, fi.qual, norm(bad[0], 80), f"the octets of a literal pass through `{norm(bad[0], 60)}` before they are handed on: a literal containing a backslash followed by `\"` or `\\` (an APPENDed message, a password) is silently rewritten", bad[0].lineno)
+    elif rets and all(isinstance(r.value, ast.Name) for r in rets):
+        ctx.ok("R8.5", where(fi), f"the literal arm returns the counted slice `{var}` untouched")
+    else:
+        ctx.bad("R8.5", fi.module, fi.qual, f"return {var}", "the literal arm of _p_string no longer returns the counted slice of the input as it is", lit[0].lineno)
+
+
 def r8_6(ctx):
     p = ctx.p
     # entry points decode with latin-1
@@ -715,6 +739,7 @@ def run(ctx):
     ctx.do(r8_3)
     ctx.do(r8_4)
     ctx.do(r8_5)
+    ctx.do(r8_5b)
     ctx.do(r8_6)
     from . import c04, c16, c19
     ctx.do(c16.r16_2)
